@@ -45,6 +45,10 @@ type Run struct {
 	Rule              string
 	Assumptions       []string
 	Extra             map[string]any
+	// WorkerCrashed, when set, is asked about a worker process of Parallel that died. It may turn the death into a
+	// failure of the property (r.Fail) and return true; the items that worker had not reached stay unexplored (the
+	// run is marked not exhaustive). Returning false keeps the default: an internal error of the machinery.
+	WorkerCrashed func(worker int, output string) bool
 
 	mu          sync.Mutex
 	start       time.Time
@@ -277,6 +281,10 @@ func (r *Run) Parallel(n int, testName string, body func()) {
 				os.Stderr.Write(out)
 			}
 			if err != nil {
+				if r.WorkerCrashed != nil && r.WorkerCrashed(i, outs[i]) {
+					r.NotExhaustive(fmt.Sprintf("worker %d of %d died (reported as a failure); its share of the items is not covered", i, n))
+					return
+				}
 				errs[i] = fmt.Errorf("worker %d: %v", i, err)
 				return
 			}
